@@ -10,7 +10,7 @@ import (
 
 func init() {
 	register("C01", Meta{
-		Explanation: "Structural necessary conditions of bridge solvency (mint/burn discipline): (mint-sites) every BankKeeper.MintCoins site reachable from block/message/governance processing lies in a function playing one of the roles deposit, refund, execution payout or cold-storage proposal, and BurnCoins only in the pool-insert role; (deposit-amount) the deposit mint derives from SendToHubEvent.Amount only (plus the decimals lookup) and every SendToHubEvent built inside the module takes its Amount from TransferToChainEvent.Amount only – Fee is not allowed because the contract locks _amount only; (lock-equals-emit) in Hub2.sol the value locked by transferToChain / transferETHToChain is the value emitted as _amount, and submitBatch transfers exactly _amounts[i] to _destinations[i]; (connector-amount) the Minter connector fills event Amount from the transferred value and Fee from the command; (burn-then-record) the pool insert records the entry only after SendCoinsFromAccountToModule succeeded and the same coins were burnt, the burnt value is amount+fee+commission of the parameters and the recorded Token/Fee/ValCommission derive from those parameters respectively; (refund-amount) the refund mints exactly Token+Fee+ValCommission of the looked-up entry, converted, and deletes the entry afterwards; (payout-amount) the three execution mints derive from the batch's Fee/ValCommission amounts (and FeePaid/prices), the second is clamped to the total fee and the third is total minus the second; (event-atomic) handlers run in a CacheContext whose commit is guarded by err == nil.",
+		Explanation: "Structural necessary conditions of bridge solvency (mint/burn discipline): (mint-sites) every BankKeeper.MintCoins site reachable from block/message/governance processing lies in a function playing one of the roles deposit, refund, execution payout or cold-storage proposal, and BurnCoins only in the pool-insert role; (deposit-amount) the deposit mint derives from SendToHubEvent.Amount only (plus the decimals lookup) and every SendToHubEvent built inside the module takes its Amount from TransferToChainEvent.Amount only – Fee is not allowed because the contract locks _amount only; (lock-equals-emit) in Hub2.sol the value locked by transferToChain / transferETHToChain is the value emitted as _amount, and submitBatch transfers exactly _amounts[i] to _destinations[i]; (connector-amount) the Minter connector fills event Amount from the transferred value and Fee from the command; (burn-then-record) the pool insert records the entry only after SendCoinsFromAccountToModule succeeded and the same coins were burnt, the burnt value is amount+fee+commission of the parameters and the recorded Token/Fee/ValCommission derive from those parameters respectively; (refund-amount) the refund mints exactly Token+Fee+ValCommission of the looked-up entry, converted, and deletes the entry afterwards; (payout-amount) the three execution mints derive from the batch's Fee/ValCommission amounts (and FeePaid/prices), the second is clamped to the total fee and the third is total minus the second; (event-atomic) handlers run in a CacheContext whose commit is guarded by err == nil; (quorum / lifecycle / identity) the clauses of C02, C03, C04, C12, C13 and C14 that are also necessary for solvency are re-checked here under C01.quorum, C01.lifecycle and C01.identity (an event applied without quorum or twice, a transfer in two places, a refund twice or to the wrong party, a still-executable batch returned to the pool, or votes pooled across different amounts each create unbacked vouchers).",
 		NotDecided:  []string{"the inequality supply + in-flight <= custody itself over histories", "behaviour of the ERC-20 tokens and of the Minter multisig", "the Rust orchestrator's arithmetic (only its event signature strings are checked, under C08)", "units (external vs 18-decimals) are decided by rule C01.units only where both operands carry a known unit"},
 		Assumptions: append(append([]string{}, commonAssumptions...), "Hub2.sol is read by a purpose-built tokenizer/bracket parser validated on every run by requiring the expected functions, events and abi.encode sites"),
 	}, checkC01)
@@ -196,6 +196,19 @@ func checkC01(c *Ctx) {
 
 	// ---- C01.units ----------------------------------------------------------------------
 	c.checkUnits("C01.units", reach, false)
+
+	// ---- clauses of other properties that are necessary conditions of solvency -----------------
+	// (an event applied without quorum or twice, a transfer in two places, a refund to the wrong party
+	// or twice, a still-executable batch returned to the pool, or votes pooled across different amounts
+	// each let vouchers exist that no collateral backs)
+	r.Min("C01.quorum", 10)
+	r.Min("C01.lifecycle", 30)
+	c.include("quorum", "C02", rulesIn("C02.quorum-guard", "C02.signer-bonded", "C02.one-vote"))
+	c.include("quorum", "C03", rulesIn("C03."))
+	c.include("lifecycle", "C04", rulesIn("C04."))
+	c.include("lifecycle", "C12", rulesIn("C12.authorised", "C12.once", "C12.recipient", "C12.expiry"))
+	c.include("lifecycle", "C13", rulesIn("C13."))
+	c.include("identity", "C14", rulesIn("C14.coverage", "C14.injective"))
 
 	// ---- C01.lock-equals-emit / C01.connector-amount -----------------------------------------
 	c.checkSolLock()
